@@ -138,7 +138,7 @@ func checkInject(c *InjectCase) error {
 	}
 	before := commitsIn(l, st.evIdx, c.At)
 	if st.streamErr == nil {
-		return fmt.Errorf("a packet failing the validity gate was injected at index %d (class %d) but Stream returned nil", c.At, c.Sub%6)
+		return fmt.Errorf("a packet failing the validity gate was injected at index %d (class %d) but Stream returned nil", c.At, c.Sub%8)
 	}
 	if len(st.got) > before {
 		return fmt.Errorf("%d transactions were delivered although only %d commit events precede the malformed packet at index %d", len(st.got), before, c.At)
@@ -202,7 +202,12 @@ func gateClass(rt *rapid.T) ([]byte, string) {
 		}
 	case 2:
 		if n >= 13 {
-			binary.LittleEndian.PutUint32(b[9:], uint32(rapid.IntRange(0, max(0, n-1)).Draw(rt, "under")))
+			if rapid.Bool().Draw(rt, "under_near") {
+				// the buffer is over-long by a small amount (1..16 bytes: checksum-sized and other trailers)
+				binary.LittleEndian.PutUint32(b[9:], uint32(max(0, n-rapid.IntRange(1, 16).Draw(rt, "under_by"))))
+			} else {
+				binary.LittleEndian.PutUint32(b[9:], uint32(rapid.IntRange(0, max(0, n-1)).Draw(rt, "under")))
+			}
 			cls = "length-field<len"
 		}
 	case 3:
@@ -262,7 +267,7 @@ func TestC17(t *testing.T) {
 				if len(e) > 400 {
 					continue
 				}
-				for cut := 0; cut <= len(e)+3; cut++ {
+				for cut := 0; cut <= len(e)+16; cut++ {
 					var b []byte
 					if cut <= len(e) {
 						b = e[:cut]
@@ -284,11 +289,11 @@ func TestC17(t *testing.T) {
 			}
 			payloads, _, _ := l.Served(h.FirstFile, h.Base)
 			pacing := rapid.IntRange(0, 1).Draw(rt, "pacing")
-			sub := rapid.IntRange(0, 5).Draw(rt, "bad_class")
+			sub := rapid.IntRange(0, 7).Draw(rt, "bad_class")
 			for at := 0; at <= len(payloads); at++ {
 				c := &InjectCase{H: h, At: at, Sub: sub + at, Pacing: pacing}
 				journal("C17", "c17inject", c)
-				rec.Case(true, c, "inject", fmt.Sprintf("inject/class%d", c.Sub%6), fmt.Sprintf("inject/pacing=%d", pacing))
+				rec.Case(true, c, "inject", fmt.Sprintf("inject/class%d", c.Sub%8), fmt.Sprintf("inject/pacing=%d", pacing))
 				if at == len(payloads)/2 {
 					rec.Sample(c)
 				}
